@@ -183,7 +183,7 @@ def direct_checks(ctx, N, W):
 
 def run(ctx):
     rng = np.random.default_rng(ctx.seed)
-    ctx.proof_layer(allowed_axioms=list(core.R_AX) + [core.FLOAT_SPEC], coq_deps=["Corr/RunTriIndex"], gen=["unique_values"])
+    ctx.proof_layer(allowed_axioms=list(core.R_AX) + [core.FLOAT_SPEC], coq_deps=["Corr/RunTriIndex"], gen=["unique_values", "matrix_compression"])
     core.note_drift(ctx, ANCHORS)
     if ctx.thorough:
         ns = list(range(0, 151))
